@@ -62,7 +62,7 @@ W void w_md_read_key(const unsigned char* in, unsigned n, MOut* o) {
   arena.reset(0); ResourceManager rm(&arena); MD d(&rm, VReader{in, in + n});
   Code c = (d.*get(T_rk()))();
   o->code = unsigned(c); o->consumed = w_md_pos(&d, in); o->len = 0; o->overflowed = rm.overflowed();
-  if (c == DeserializationError::Ok) { JsonString s = (d.*get(T_sbuf())).str(); o->len = unsigned(strlen(s.c_str())); for (unsigned i = 0; i < 16 && i < o->len + 1; i++) o->bytes[i] = (unsigned char)s.c_str()[i]; }
+  if (c == DeserializationError::Ok) { JsonString s = (d.*get(T_sbuf())).str(); o->len = unsigned(s.size()); for (unsigned i = 0; i < 16 && i < o->len + 1; i++) o->bytes[i] = (unsigned char)s.c_str()[i]; }
 }
 W unsigned w_maxstr(void) { return unsigned(ARENA_CHUNK - sizeofString(0)); }   // longest string one arena chunk can hold
 // ---- readString into a document that already holds one string (de-duplication through StringBuffer::save)
@@ -80,3 +80,4 @@ W void w_md_str_pre(const unsigned char* in, unsigned n, const char* pre, unsign
   }
   o->pre_refs = p ? unsigned(p->references) : 0; o->pre_len = p ? unsigned(p->length) : 0;
 }
+W void w_md_set_key(MD* d, const unsigned char* k, unsigned n) { StringBuffer& sb = d->*get(T_sbuf()); char* p = sb.reserve(n); if (p) for (unsigned i = 0; i < n; i++) p[i] = char(k[i]); }
